@@ -176,7 +176,8 @@ def run(ctx):
     # multi-key calls and streamed payloads
     multi = []
     for _ in range(40 if quick else 400):
-        ns = [rng.choice(names) for _ in range(rng.randrange(1, 4))]
+        usable = [n for n in names if G.algs_for(n, pool[n])]
+        ns = [rng.choice(usable) for _ in range(rng.randrange(1, 4))]
         ks = [pool[n] for n in ns]
         pay = rng.choice(pls)
         shape = rng.choice(["arr", "set"])
